@@ -104,3 +104,8 @@ mod tests {
         }
     }
 }
+
+// verification hook (guard: cfg(kani)); contract harnesses live outside the repository
+#[cfg(kani)]
+#[path = "/verif/kani/ntp_proto/cookiestash.rs"]
+mod verif;
